@@ -4,6 +4,7 @@ import (
 	"fmt"
 	"net/http"
 	"net/http/httptest"
+	"net/url"
 	"strconv"
 	"strings"
 	"time"
@@ -46,10 +47,12 @@ type c05Req struct {
 	acsIndex fieldVal
 	post     bool
 	delay    time.Duration
+	extras   int    // bit set of optional request content that must not matter: 1 Conditions (requester's own validity window), 2 Subject, 4 Scoping/RequesterID, 8 Extensions, 16 ForceAuthn+IsPassive
+	recvHost string // "" = the IdP's own host; "dest" = the host named by the (possibly forged) Destination; "other" = some third host; also sent as X-Forwarded-Host
 }
 
 func (r c05Req) String() string {
-	return fmt.Sprintf("issuer=%s dest=%s version=%s issue=%s acsURL=%s(%s) acsIndex=%s(%s) post=%v D=%v", r.issuer.kind, r.dest.kind, r.version.kind, r.issueOff, r.acsURL.kind, r.acsURL.val, r.acsIndex.kind, r.acsIndex.val, r.post, r.delay)
+	return fmt.Sprintf("issuer=%s dest=%s version=%s issue=%s acsURL=%s(%s) acsIndex=%s(%s) post=%v D=%v extras=%d recvHost=%s", r.issuer.kind, r.dest.kind, r.version.kind, r.issueOff, r.acsURL.kind, r.acsURL.val, r.acsIndex.kind, r.acsIndex.val, r.post, r.delay, r.extras, r.recvHost)
 }
 
 const c05SP2 = "https://sp2.example.com/saml/metadata"
@@ -181,6 +184,10 @@ func runC05(c *core.Ctx) {
 		default:
 			q.acsIndex = fieldVal{kind: "absent", absent: true}
 		}
+		if r.Intn(3) == 0 {
+			q.extras = r.Intn(32)
+		}
+		q.recvHost = []string{"", "", "dest", "dest", "other"}[r.Intn(5)]
 		return q
 	}
 	deviate := func(q *c05Req, f, v int) {
@@ -268,12 +275,61 @@ func c05Run(c *core.Ctx, m *saml.EntityDescriptor, q c05Req) {
 	}
 	setOrRemoveAttr(el, "AssertionConsumerServiceURL", q.acsURL)
 	setOrRemoveAttr(el, "AssertionConsumerServiceIndex", q.acsIndex)
+	// optional content a requester may add; none of it is the IdP's freshness, version, destination or issuer rule
+	if q.extras&1 != 0 {
+		cd := el.CreateElement("saml:Conditions")
+		cd.CreateAttr("NotBefore", now.Add(-time.Hour).Format("2006-01-02T15:04:05Z"))
+		cd.CreateAttr("NotOnOrAfter", now.Add(24*time.Hour).Format("2006-01-02T15:04:05Z"))
+	}
+	if q.extras&2 != 0 {
+		sj := el.CreateElement("saml:Subject")
+		sj.CreateElement("saml:NameID").SetText("someone@example.com")
+		sc := sj.CreateElement("saml:SubjectConfirmation")
+		sc.CreateAttr("Method", "urn:oasis:names:tc:SAML:2.0:cm:bearer")
+		scd := sc.CreateElement("saml:SubjectConfirmationData")
+		scd.CreateAttr("Recipient", "https://attacker.example/acs")
+		scd.CreateAttr("NotOnOrAfter", now.Add(24*time.Hour).Format("2006-01-02T15:04:05Z"))
+	}
+	if q.extras&4 != 0 {
+		sg := el.CreateElement("samlp:Scoping")
+		sg.CreateAttr("ProxyCount", "2")
+		sg.CreateElement("samlp:RequesterID").SetText(c05SP2)
+	}
+	if q.extras&8 != 0 {
+		ex := el.CreateElement("samlp:Extensions")
+		x := ex.CreateElement("x:Hint")
+		x.CreateAttr("xmlns:x", "urn:example:ext")
+		x.CreateAttr("AssertionConsumerServiceURL", "https://attacker.example/acs")
+		x.CreateAttr("IssueInstant", now.Format("2006-01-02T15:04:05Z"))
+	}
+	if q.extras&16 != 0 {
+		el.CreateAttr("ForceAuthn", "true")
+		el.CreateAttr("IsPassive", "false")
+	}
 	raw := so.Bytes(el)
 	mk := func() *http.Request {
+		var hr *http.Request
 		if q.post {
-			return so.SSORequestPOST(so.IDPSSO, raw, "relay")
+			hr = so.SSORequestPOST(so.IDPSSO, raw, "relay")
+		} else {
+			hr = so.SSORequestGET(so.IDPSSO, raw, "relay")
 		}
-		return so.SSORequestGET(so.IDPSSO, raw, "relay")
+		// the host the request claims to have been received at is client-controlled (Host, X-Forwarded-Host)
+		h := ""
+		switch q.recvHost {
+		case "dest":
+			if u, err := url.Parse(q.dest.val); err == nil && !q.dest.absent {
+				h = u.Host
+			}
+		case "other":
+			h = "idp.other.example"
+		}
+		if h != "" {
+			hr.Host = h
+			hr.URL.Host = h
+			hr.Header.Set("X-Forwarded-Host", h)
+		}
+		return hr
 	}
 	desc := fmt.Sprintf("%s md=%s", q, mdShape(m))
 	c.Journal("C05 " + desc)
